@@ -103,7 +103,7 @@ Fixpoint split_str_fuel (fuel : nat) (pat s : str) : list str :=
   end.
 Definition split_str (pat s : str) : list str :=
   match pat with
-  | [] => [s]      (* never used with an empty pattern; Rust differs there *)
+  | [] => [] :: map (fun c => [c]) s ++ [[]]      (* Rust: an empty pattern matches at every character boundary *)
   | _ => split_str_fuel (S (length s)) pat s
   end.
 
